@@ -87,7 +87,7 @@ def front_add_match(c):
         one_cell_removed_length_by_errors="cell_plus_one(self.end.errors, old(self.end.errors), match.rstop, match.errors)",
         nothing_else_changes="adj_same(self.end.adjacent_bases, old(self.end.adjacent_bases)) and self.reverse_complemented == old(self.reverse_complemented)",
     )
-    c.mutant("match.removed_sequence_length()", "match.length")
+    c.mutant("match.removed_sequence_length()", "match.removed_sequence_length() + 1")
     c.mutant("+= 1", "+= 2")
 
 
@@ -122,7 +122,8 @@ def anywhere_add_match(c):
                                           f"end_same(self.front, old(self.front)) and adj_plus_one(self.back.adjacent_bases, old(self.back.adjacent_bases), {ADJ}))",
         nothing_else_changes="self.reverse_complemented == old(self.reverse_complemented)",
     )
-    c.mutant("isinstance(match, RemoveBeforeMatch)", "isinstance(match, RemoveAfterMatch)")
+    c.mutant("self.front.errors[match.removed_sequence_length()][match.errors] += 1", "self.back.errors[match.removed_sequence_length()][match.errors] += 1")
+    c.mutant("self.back.errors[match.removed_sequence_length()][match.errors] += 1", "self.back.errors[match.removed_sequence_length()][match.errors] += 2", occurrence=1)
 
 
 LStatT = ObjT("LinkedAdapterStatistics", front=EndT, back=EndT, reverse_complemented=Int)
